@@ -31,7 +31,7 @@ FILES = ["zz_verif_common_test.go", "zz_verif_g11_test.go"]
 K_CLEAR = "clearing-local-ptr-while-private-rdns-on-stops-dns-server"
 K_ENABLE = "enabling-private-rdns-alone-rejected-although-servers-are-stored"
 
-ACTIONS = ["SetConfigAccepted", "SetConfigRejected", "Query", "UpstreamFails", "UpstreamRecovers", "Observe"]
+ACTIONS = ["SetConfigAccepted", "SetConfigRejected", "Query", "TestUpstreams", "UpstreamFails", "UpstreamRecovers", "Observe"]
 
 # cost model of the replay (seconds): an accepted dns_config restarts the
 # server (Reconfigure sleeps 100 ms), everything else is a round trip.
@@ -88,10 +88,13 @@ class Graph:
         self.edges = {}     # (cfgkey, syskey) -> [edge]
         self.cfg = {}       # cfgkey -> cfg
         self.canfail = set()
+        self.tests = {}     # (syskey, downkey) -> [test]
         for v in vectors:
             ck, sk, dk = canon(v["cfg"]), canon(sorted(v["sys"])), canon(sorted(v["down"]))
             self.cfg[ck] = v["cfg"]
             self.tab[(ck, sk, dk)] = sorted(v["tab"], key=canon)
+            if v.get("tests"):
+                self.tests[(sk, dk)] = sorted(v["tests"], key=canon)
             if not v["down"]:
                 self.edges[(ck, sk)] = sorted(v["edges"], key=canon)
                 self.canfail |= set(v["canfail"])
@@ -119,6 +122,13 @@ def ask_steps(g, node, down, rng=None, sample=None):
     tab = g.tab[(node[0], node[1], canon(sorted(down)))]
     rows = tab if sample is None or sample >= len(tab) else rng.sample(tab, sample)
     return [{"a": "ask", "loc": r["loc"], "q": r["q"], "alts": r["alts"]} for r in rows]
+
+
+def test_steps(g, node, down, rng, n):
+    """test_upstream_dns calls: their outcome does not depend on the stored
+    configuration, so they may be made in any state."""
+    tests = g.tests.get((node[1], canon(sorted(down))), [])
+    return [{"a": "test", "req": t["req"], "out": t["out"]} for t in rng.sample(tests, min(n, len(tests)))]
 
 
 def plan(g, rng, budget, tour_len, known_open):
@@ -176,12 +186,13 @@ def plan(g, rng, budget, tour_len, known_open):
                 down ^= {u}
                 steps.append({"a": "down", "u": u, "on": on})
                 steps += ask_steps(g, node, down)
-                c += C_ASK * len(g.tab[(node[0], node[1], canon(sorted(down)))])
+                steps += test_steps(g, node, down, rng, 1)
+                c += C_ASK * (2 + len(g.tab[(node[0], node[1], canon(sorted(down)))]))
             for u in sorted(down):
                 steps.append({"a": "down", "u": u, "on": False})
         else:
             walked.add(node)
-            a = ask_steps(g, node, set())
+            a = ask_steps(g, node, set()) + test_steps(g, node, set(), rng, 1)
             steps += a
             c += C_ASK * len(a)
         return c
@@ -249,8 +260,12 @@ def plan(g, rng, budget, tour_len, known_open):
                 break
         tours.append({"uni": g.uni, "sys": json.loads(init[1]), "steps": steps})
         cost += tcost
+    # What is left when the budget was not the limit can only be reached through
+    # a step with several admissible results or one an open finding stops at.
     return tours, {"edges": g.nedges, "edges_planned": covered, "states": len(g.edges), "states_visited": len(visited & set(g.edges)),
-                   "nd_edges_planned": nd_edges, "tours_ended_by_known_finding": cut, "cost_s": round(cost, 1)}
+                   "nd_edges_planned": nd_edges, "tours_ended_by_known_finding": cut, "cost_s": round(cost, 1),
+                   "stopped_by_budget": bool(n_unc > 0 and cost >= budget),
+                   "edges_behind_nondeterministic_or_known_finding_steps": 0 if cost >= budget else n_unc}
 
 
 # ------------------------------------------------------------------- TLC side
@@ -408,9 +423,9 @@ def run(ctx):
     known_open = {k for (p, k), v in vlib.known_findings().items() if p == ctx.prop and v.get("status") == "open"}
 
     # ---- direction A
-    workers = 24
-    wall = 22 if ctx.quick else 150
-    share = {"selq": 0.5, "sel": 0.55, "val": 0.3, "ptr": 0.2}
+    workers = 24 if ctx.quick else 32
+    wall = 22 if ctx.quick else 210
+    share = {"selq": 0.5, "sel": 0.55, "val": 0.3, "ptr": 0.15}
     tours, pstats = [], {}
     for u, g in graphs.items():
         ts, st = plan(g, rng, workers * wall * share[u], 25 if u.startswith("sel") else 12, known_open)
@@ -457,7 +472,7 @@ def run(ctx):
             or min(tcls.get(c, 0) for c in ("up", "nx", "local", "fail")) < 3:
         raise vlib.Inconclusive("vacuous traces: %s %s %s" % (dict(tkinds), dict(tcodes), dict(tcls)))
 
-    exhaustive = all(st["edges_planned"] == st["edges"] and st["states_visited"] == st["states"] for st in pstats.values())
+    exhaustive = not any(st["stopped_by_budget"] for st in pstats.values())
     nontrivial = sum(1 for t in tours for s in t["steps"] if (s["a"] == "set" and s["res"][0]["code"] == 400)
                      or (s["a"] == "ask" and any(a["must"] or len(a["may"]) > 1 or a["cls"] in ("nx", "local", "fail") for a in s["alts"])))
     samples = []
@@ -465,12 +480,12 @@ def run(ctx):
         samples.append({"tour": t["id"], "uni": t["uni"], "sys": t["sys"], "steps": t["steps"][:3]})
     cov = {
         "traces_validated_against_impl": len(tours) + tkinds.get("reset", 0),
-        "evaluations": stats.get("set", 0) + stats.get("ask", 0) + tkinds.get("set", 0) + tkinds.get("ask", 0),
+        "evaluations": stats.get("set", 0) + stats.get("ask", 0) + stats.get("test", 0) + tkinds.get("set", 0) + tkinds.get("ask", 0),
         "trace_lines": len(trows), "trace_histories": tkinds.get("reset", 0), "trace_lines_rejected": len(tdet),
         "trace_lines_rejected_confirmed": len(tconf), "trace_status_codes": {str(k): v for k, v in tcodes.items()},
         "trace_response_classes": dict(tcls), "binding_demo": demo,
         "tours": len(tours), "dns_config_calls": stats.get("set", 0), "dns_config_accepted": stats.get("accepted", 0),
-        "questions": stats.get("ask", 0), "plan": pstats,
+        "questions": stats.get("ask", 0), "test_upstream_dns_calls": stats.get("test", 0), "plan": pstats,
         "distinct_nontrivial": nontrivial,
         "rule": "an evaluation is one dns_config call (status code, dns_info and server liveness compared with the specification's result) or one "
                 "question sent over UDP (receiving mocks, answering mock and response class compared with the admissible outcomes of the "
@@ -507,8 +522,8 @@ def replay(ctx, path):
     bad = [r for r in rows if r.get("kind") in ("bad", "flaky")]
     last = tour["steps"][-1]
     print(json.dumps({"history": [("dns_config %s" % s["req"]["has"]) if s["a"] == "set" else ("%s down=%s" % (s["u"], s["on"])) if s["a"] == "down"
-                                  else "ask" for s in tour["steps"]][-12:],
-                      "expected": last.get("res") and [{"code": r["code"]} for r in last["res"]] or last.get("alts"),
+                                  else s["a"] for s in tour["steps"]][-12:],
+                      "expected": last.get("res") and [{"code": r["code"]} for r in last["res"]] or last.get("alts") or last.get("out"),
                       "observed": [{"what": b["what"], "got": b["got"]} for b in bad] or "admissible",
                       "verdict": "DISAGREEMENT" if bad else "admissible"}, indent=1)[:6000])
     return 1 if bad else 0
